@@ -227,7 +227,11 @@ def bi_str(ex, args, kw):
     v = args[0]
     if isinstance(v, (str, SStr)):
         return v
-    return back(norm(to_sstr(ex, v))) if isinstance(to_sstr(ex, v), (str, SStr)) else to_sstr(ex, v)
+    from .exec import ExcClass
+    if isinstance(v, ExcClass):
+        return f"<class '{v.name}'>"
+    r = to_sstr(ex, v)
+    return back(norm(r)) if isinstance(r, (str, SStr)) else r
 
 
 @builtin("repr")
